@@ -3,4 +3,6 @@
 EXTENDS Trace_Memory
 FQ == (1 :> 2) @@ (2 :> 1) @@ (3 :> 2)
 FR == (1 :> 2) @@ (2 :> 1) @@ (3 :> 2) @@ (4 :> 1000000) @@ (5 :> 3) @@ (6 :> 1)
+\* ranks shifted by one; solutions 7 and 8 have the objective values 0.0 and -0.0: a tie
+FZ == (1 :> 3) @@ (2 :> 2) @@ (3 :> 3) @@ (4 :> 1000000) @@ (5 :> 4) @@ (6 :> 2) @@ (7 :> 1) @@ (8 :> 1)
 =============================================================================
